@@ -381,8 +381,10 @@ def scalar_lt(I, a, b, strict=True):
     if is_str(a) and is_str(b):
         if not is_z3(a) and not is_z3(b):
             return (a < b) if strict else (a <= b)
-        za, zb = to_z3(a), to_z3(b)
-        return simp_bool(za < zb if strict else za <= zb)
+        # string order through an order embedding rank: String -> Real (exists for any countable total
+        # order); keeps z3's sequence solver out of sorting arguments
+        ra, rb = I.str_rank(a), I.str_rank(b)
+        return simp_bool(ra < rb if strict else ra <= rb)
     if isinstance(a, bool) or isinstance(b, bool):
         return scalar_lt(I, int(a) if isinstance(a, bool) else a, int(b) if isinstance(b, bool) else b, strict)
     raise Unsupported("ordering between %r and %r" % (a, b))
@@ -611,7 +613,7 @@ def as_term(I, v):
     its = I.try_iter_concrete(v)
     if its is None:
         raise Unsupported("not a list: %r" % (v,))
-    return Conc(I, its)
+    return core.mk_conc(I, its)
 
 
 def list_concat(I, a, b):
@@ -619,7 +621,7 @@ def list_concat(I, a, b):
     if ia is not None and ib is not None:
         return I.new_list(ia + ib, a.is_tuple)
     et = etype_of_term(I, a.term) or etype_of_term(I, b.term)
-    return I.new_alist(Concat(I, [a.term, b.term], et), a.is_tuple)
+    return I.new_alist(core.mk_concat(I, [a.term, b.term], et), a.is_tuple)
 
 
 def list_extend(I, box, v):
@@ -629,19 +631,19 @@ def list_extend(I, box, v):
     t = as_term(I, v)
     ia = I.items_of(box)
     if ia is not None and isinstance(t, Conc):
-        box.term = Conc(I, ia + t.items)
+        box.term = core.mk_conc(I, ia + t.items)
     else:
         et = etype_of_term(I, box.term) or etype_of_term(I, t)
-        box.term = Concat(I, [box.term, t], et)
+        box.term = core.mk_concat(I, [box.term, t], et)
 
 
 def list_append(I, box, x):
     I.check_mutable(box)
     ia = I.items_of(box)
     if ia is not None:
-        box.term = Conc(I, ia + [x])
+        box.term = core.mk_conc(I, ia + [x])
     else:
-        box.term = Concat(I, [box.term, Conc(I, [x])], etype_of_term(I, box.term))
+        box.term = core.mk_concat(I, [box.term, core.mk_conc(I, [x])], etype_of_term(I, box.term))
 
 
 def norm_index(I, i, n):
@@ -729,7 +731,7 @@ def setitem(I, obj, idx, v):
                 I.raise_exc(INDEX_ERR)
             new = list(items)
             new[idx] = v
-            obj.term = Conc(I, new)
+            obj.term = core.mk_conc(I, new)
             return
         raise Unsupported("item assignment into an abstract list")
     raise Unsupported("item assignment on %r" % (obj,))
@@ -991,7 +993,7 @@ def make_builtins(I):
         items = I.try_iter_concrete(v)
         if items is None:
             raise Unsupported("tuple of %r" % (v,))
-        return I.new_alist(Conc(I, list(items)), is_tuple=True)
+        return I.new_alist(core.mk_conc(I, list(items)), is_tuple=True)
 
     def b_set(I, args, kw):
         if not args:
@@ -1121,6 +1123,23 @@ def make_builtins(I):
             I.raise_exc(VALUE_ERR, "%s() of a non-numeral" % kind)
         return I.dec_real(s) if kind == "float" else I.dec_int(s)
     I.str_to_num = str_to_num
+    I.rank_fn = z3.Function("strrank", STR, REAL)
+
+    def str_rank(s):
+        zs = to_z3(s)
+        r = I.rank_fn(zs)
+        ctx = I.ctx
+        seen = ctx.__dict__.setdefault("rank_terms", [])
+        for o in seen:
+            if o.eq(zs):
+                return r
+        for o in seen:
+            ctx.assume((I.rank_fn(o) == r) == (o == zs))
+            if z3.is_string_value(o) and z3.is_string_value(zs):
+                ctx.assume((I.rank_fn(o) < r) == z3.BoolVal(o.as_string() < zs.as_string()))
+        seen.append(zs)
+        return r
+    I.str_rank = str_rank
     return B
 
 
